@@ -34,7 +34,7 @@ COMPONENTS = {
     'stub': ['SimLoop', 'SimFS (os/mkstemp/pyaio)', 'SimRedis',
              'SimObjectStore/SimMsgQueue (aws.py method set)'],
 }
-BUDGET = {'quick': 5000, 'thorough': 300000}
+BUDGET = {'quick': 15000, 'thorough': 300000}
 PROBES = ['overlap', 'load-overlaps-mutation', 'uuid-collision-injected',
           'get-after-remove', 'delivered-round', 'fault-config',
           'backend:dict', 'backend:disk', 'backend:redis', 'backend:cloud']
@@ -245,7 +245,11 @@ def execute(scn, debug=False):
                 elif op == 'remove':
                     ok, r, s0, s1 = call(k, op, store.remove, md.id)
                     md.removed_seq = (s0, s1)
-                    md.live = {False} if ok else {True, False}
+                    # under injected substrate errors a backend may swallow the
+                    # error of a removal (DiskOps.delete_env ignores OSError):
+                    # the narrow relaxation is "may or may not have taken
+                    # effect", also when no exception was reported
+                    md.live = {False} if ok and not faults else {True, False}
                 elif op == 'get':
                     ok, r, s0, s1 = call(k, op, store.get, md.id)
                     if md.live == {False}:
@@ -349,7 +353,7 @@ def execute(scn, debug=False):
                 rm = md.removed_seq
                 live_throughout = w1 < s0 and (rm is None or rm[0] > s1)
                 gone_before = rm is not None and rm[1] < s0 and \
-                    md.live == {False}
+                    md.live == {False} and not faults
                 not_yet = w0 > s1
                 if md.id in seen:
                     if gone_before or not_yet:
